@@ -41,7 +41,7 @@ fn emit_case(out: &mut dyn Write, o: &Opts, c: &Case, hist: &mut BTreeMap<String
             let direct = guarded(move || data::decode_data(&dc));
             let a1 = match direct {
                 Ok(Ok(v)) => hex(&v),
-                Ok(Err(e)) => format!("err:{:?}", e).replace(' ', "_"),
+                Ok(Err(e)) => crate::gen_dec::derr(&e),
                 Err(_) => "panic".into(),
             };
             let expect = if c.eci.is_some() { "err:ECICode".to_string() } else { hex(&c.data) };
@@ -52,11 +52,36 @@ fn emit_case(out: &mut dyn Write, o: &Opts, c: &Case, hist: &mut BTreeMap<String
             let px = guarded(move || DataMatrix::decode(&bits, w));
             let a2 = match px {
                 Ok(Ok(v)) => hex(&v),
-                Ok(Err(datamatrix::DecodingError::DataDecoding(e))) => format!("err:{:?}", e).replace(' ', "_"),
-                Ok(Err(e)) => format!("err:{:?}", e).replace(' ', "_"),
+                Ok(Err(datamatrix::DecodingError::DataDecoding(e))) => crate::gen_dec::derr(&e),
+                Ok(Err(datamatrix::DecodingError::PixelConversion(_))) => "err:pixel".into(),
+                Ok(Err(datamatrix::DecodingError::ErrorCorrection(_))) => "err:rs".into(),
                 Err(_) => "panic".into(),
             };
             writeln!(out, "O eq {} {} => ok", expect, a2).unwrap();
+            // the whole decoding pipeline against the composition of the Lean models, also with a
+            // few damaged modules
+            if bm.bits().len() <= 1300 {
+                let a2m = a2.replace("err:ECICode", "err:ECICode");
+                writeln!(out, "M fulldec {} {} => {}", bm.width(), pack_bits(bm.bits()), if a2m.starts_with("err") || a2m == "panic" { a2m.clone() } else { format!("ok:{}", a2m) }).unwrap();
+                let mut dmg = bm.bits().to_vec();
+                let n = dmg.len();
+                let k = 1 + (c.data.len() + c.modes as usize) % 6;
+                for q in 0..k {
+                    let p = (q * 7919 + c.data.len() * 31 + 13) % n;
+                    dmg[p] = !dmg[p];
+                }
+                let w2 = bm.width();
+                let d2 = dmg.clone();
+                let r = guarded(move || DataMatrix::decode(&d2, w2));
+                let a3 = match r {
+                    Ok(Ok(v)) => format!("ok:{}", hex(&v)),
+                    Ok(Err(datamatrix::DecodingError::DataDecoding(e))) => crate::gen_dec::derr(&e),
+                    Ok(Err(datamatrix::DecodingError::PixelConversion(_))) => "err:pixel".into(),
+                    Ok(Err(datamatrix::DecodingError::ErrorCorrection(_))) => "err:rs".into(),
+                    Err(_) => "panic".into(),
+                };
+                writeln!(out, "M fulldec {} {} => {}", w2, pack_bits(&dmg), a3).unwrap();
+            }
         }
     }
 }
